@@ -32,7 +32,7 @@ def one(mid, props, tier, mem, procs):
     for pr in props:
         t0 = time.time()
         env = dict(os.environ, VERIF_REPO=repo, VERIF_MEM_GB=str(mem), VERIF_PROCS=str(procs),
-                   VERIF_EVIDENCE_DIR="/tmp/mev_" + mid, VERIF_TMP="/tmp", VERIF_FAIL_FAST="1")
+                   VERIF_EVIDENCE_DIR="/tmp/mev_" + mid, VERIF_TMP="/tmp", VERIF_FAIL_FAST="1", VERIF_LOGS_DIR="/tmp/mlogs_" + mid)
         p = subprocess.run("cd %s && ./check %s --tier %s" % (VERIF, pr, tier), shell=True, capture_output=True, text=True, env=env)
         open(os.path.join(VERIF, "build", "mutants", "%s.%s.log" % (mid, pr)), "w").write(p.stdout + "\n--- stderr\n" + p.stderr[-3000:])
         lines = p.stdout.split("\n")
@@ -41,6 +41,7 @@ def one(mid, props, tier, mem, procs):
         rec["runs"].append({"property": pr, "exit": p.returncode, "violation_lines": viol[:12], "inconclusive": inc[:6], "wall_s": round(time.time() - t0)})
     shutil.rmtree(repo, ignore_errors=True)
     shutil.rmtree("/tmp/mev_" + mid, ignore_errors=True)
+    shutil.rmtree("/tmp/mlogs_" + mid, ignore_errors=True)
     return rec
 
 def main():
